@@ -58,6 +58,7 @@ def leaf_caplaw(E, params):
         if o3.status == 'C':
             L.concrete(len(o3.headers) <= sc0.cap or o.status == 'E:TooManyHeaders', f'{len(o3.headers)} headers fit into capacity {sc0.cap}?')
     viol = L.finish(common.predicted_json(E, I, o))
+    for v in viol: v['rel'] = 'caplaw'
     rec = {'outcome': common.outcome_label(o), 'obligations': L.nobl, 'violations': viol, 'witnesses': {common.outcome_label(o): 1}}
     s = common.sample_of(E, I, o, f' | cap3: {o3.status}')
     if s: rec['sample'] = s
